@@ -29,6 +29,19 @@ def check(rep, tier):
     recs += sr.catalogue(rng, tier, dims=("spatial_2D",), cn=True, n2=1 if tier == "quick" else 3, confs=["VISF", "jacket", "shelf"], early_vacuum=True)
     # a trigger of exactly 0 C (a falsy number), in every dimensionality
     recs += sr.catalogue(rng, tier, dims=("homogeneous", "spatial_1D") if tier == "quick" else ("homogeneous", "spatial_1D", "spatial_2D"), cn=0.0, n0=1, n1=1, n2=1, confs=["shelf"])
+    # fixed corpus (default solution and kinetics, independent of the seed): a trigger ABOVE the freezing point (nothing is supercooled when it is
+    # reached) and a trigger colder than the temperature at which this vial nucleates spontaneously with seed 0
+    for dimF, cnF in (("spatial_1D", 2.0), ("spatial_1D", -19.0)) if tier == "quick" else (("spatial_1D", 2.0), ("spatial_1D", -19.0), ("spatial_2D", 2.0), ("spatial_1D", -0.1)):
+        progF = dict(start=10, end=-50, rate=(2.0 if cnF > -10 else 1.0) / 60, holds=[], t_tot=3600.0, dt=1.0)
+        try:
+            SF = sr.make(dim=dimF, conf="shelf", height=0.05, diameter=0.05 if dimF == "spatial_1D" else 0.1, K=400 if cnF < -10 else 200, prog=progF, cnTemp=cnF)
+            dtF, _ = sr.step_info(SF); progF["t_tot"] = float(int(dtF * 9800))
+            SF = sr.make(dim=dimF, conf="shelf", height=0.05, diameter=0.05 if dimF == "spatial_1D" else 0.1, K=400 if cnF < -10 else 200, prog=progF, cnTemp=cnF)
+            recF = dict(label="%s/shelf h=0.05 default solution cn=%r (fixed corpus)" % (dimF, cnF), dim=dimF, conf="shelf", S=SF, dt=dtF, prog=progF, cnTemp=cnF, error=None, must_complete=True)
+            sr.run(SF)
+        except Exception as e:
+            recF["error"] = e
+        recs.append(recF)
     # the trigger temperature given as a numpy scalar (element of an array / arange), not a python number
     import numpy as _np
     recs += sr.catalogue(rng, tier, dims=("homogeneous", "spatial_1D"), cn=_np.int64(-6), n0=1, n1=1, confs=["shelf"])
